@@ -50,12 +50,22 @@ class C19(PropCheck):
         dmax = 3 if tier == "quick" else 4
         for _ in range(n):
             out.append({"k": "tree", "seed": rng.randrange(1 << 30), "depth": rng.randint(1, dmax), "width": rng.randint(1, dmax)})
+        # runs of identical entries (deep recursion through one line): the flat format is the *standard* rendering of the whole
+        # summary, which collapses them ("[Previous line repeated N more times]")
+        for rep in (3, 4, 5, 9):
+            for seed in (1, 2, 3):
+                out.append({"k": "tree", "seed": seed * 1000 + rep, "depth": 1, "width": 2, "repeat": rep})
         return out
 
     def run_real(self, case):
         import stackscope
 
         s = trees.rnd_stack(random.Random(case["seed"]), case["depth"], case["width"])
+        if case.get("repeat"):
+            fr = trees.rnd_frame(random.Random(case["seed"]), 0, 1)
+            fr.hide = False
+            fr.contexts = []
+            s = stackscope.Stack(root=s.root, frames=list(s.frames[:1]) + [fr] * case["repeat"] + list(s.frames[1:]), leaf=s.leaf, error=s.error)
         self._probs: List[str] = []
         parts = []
         for ctx, hid, loc in itertools.product([False, True], repeat=3):
